@@ -329,6 +329,8 @@ for _p in ('C14', 'C10'):
     PROPS[_p]['contracts'] = PROPS[_p]['contracts'] + BASE
     PROPS[_p]['tables'] = PROPS[_p]['tables'] + ['value-funnel']
 PROPS['C12']['contracts'] = PROPS['C12']['contracts'] + BASE[1:]
+# the caller's type map of an open type is kept by reference (C18-m10b)
+PROPS['C18']['contracts'] = PROPS['C18']['contracts'] + [('contracts.opentype', 'type.opentype::OpenType.__init__')]
 # SET OF / SEQUENCE OF ANY: wrapping is decided per element (C18-m8b)
 for _p in ('C18', 'C01'):
     PROPS[_p]['contracts'] = PROPS[_p]['contracts'] + [(E, 'ber.encoder::SequenceOfEncoder._encodeComponents[value-object,any-size,wrap-type]'),
